@@ -300,14 +300,19 @@ type c07run struct {
 }
 
 // place writes file fi under a fresh directory entry and returns its path.
+// placedBase is the file name under which a source is materialised: neutral (coca's file filters look at
+// names), except for package-info.java, the one file name that means something by itself.
+func placedBase(f SrcFile) string {
+	if strings.HasSuffix(f.Path, "/package-info.java") {
+		return "package-info.java"
+	}
+	return "F" + f.ID + ".java"
+}
+
 func (r *c07run) place(dir string, pos int, fi int) (string, error) {
 	f := r.sc.Files[fi]
 	// dodge coca's file filters for the directory passes: neutral base name
-	base := "F" + f.ID + ".java"
-	if strings.HasSuffix(f.Path, "/package-info.java") {
-		base = "package-info.java" // the one file name that means something by itself
-	}
-	p := filepath.Join(dir, fmt.Sprintf("%02d_%s", pos, f.ID), base)
+	p := filepath.Join(dir, fmt.Sprintf("%02d_%s", pos, f.ID), placedBase(f))
 	if err := os.MkdirAll(filepath.Dir(p), 0755); err != nil {
 		return "", err
 	}
@@ -914,7 +919,7 @@ func (C07) Run(ctx *sim.RunCtx, data json.RawMessage) (*sim.Outcome, error) {
 					dir = dl[k].dir
 					first := dl[k].files[0]
 					vi := sc.Variants + first
-					fp := filepath.Join(dir, fmt.Sprintf("%02d_%s", 0, sc.Files[first].ID), "F"+sc.Files[first].ID+".java")
+					fp := filepath.Join(dir, fmt.Sprintf("%02d_%s", 0, sc.Files[first].ID), placedBase(sc.Files[first]))
 					proc.Ops = append(proc.Ops, sim.Op{Op: "writeFile", Args: map[string]interface{}{"path": fp, "text": sc.Files[vi].Text, "preserve_mtime": true}})
 					files = append([]int{vi}, dl[k].files[1:]...)
 					d.files = files
